@@ -427,10 +427,73 @@ fn proto_case_from_env()
 {
     let path = match std::env::var("VERIF_PROTO_CASE_TXT") { Ok(p) => p, Err(_) => return };
     let text = std::fs::read_to_string(path).unwrap();
-    let c = parse_case(&text);
     /*  the panics of worker threads and of build() are expected outcomes here: keep the output readable */
     std::panic::set_hook(Box::new(|_| {}));
-    let (v, runs) = run_case(&c);
-    let items : Vec<String> = v.iter().map(|(x, p)| format!("{{\"property\":\"{}\",\"what\":\"{}\",\"policy\":{}}}", x.property, json_escape(&x.what), p)).collect();
-    println!("PROTO-RESULT {{\"violations\":[{}],\"runs\":{}}}", items.join(","), runs);
+    /*  several cases may be given, separated by lines "---": one PROTO-RESULT line each, in order */
+    for part in text.split("\n---\n")
+    {
+        if part.trim().is_empty() { continue; }
+        let c = parse_case(part);
+        let (v, runs) = run_case(&c);
+        let items : Vec<String> = v.iter().map(|(x, p)| format!("{{\"property\":\"{}\",\"what\":\"{}\",\"policy\":{}}}", x.property, json_escape(&x.what), p)).collect();
+        println!("PROTO-RESULT {{\"violations\":[{}],\"runs\":{}}}", items.join(","), runs);
+    }
+}
+
+/*  ---- C14 (engine M/parser): the real parser on concrete text written by lib/parse_engine.py ----
+    file: blocks separated by a line "---"; first line of a block is "P" (a whole rules file follows) or
+    "B" (the lines of one section follow); line text is given escaped: \t for tab, \e for an empty line marker. */
+#[test]
+fn parse_case_from_env()
+{
+    use crate::rule::{parse, ParseError as RPE};
+    use crate::bundle::{PathBundle, ParseError as BPE};
+    let path = match std::env::var("VERIF_PARSE_CASE_TXT") { Ok(p) => p, Err(_) => return };
+    let text = std::fs::read_to_string(path).unwrap();
+    std::panic::set_hook(Box::new(|_| {}));
+    let q = |x : &String| format!("\"{}\"", json_escape(x));
+    let berr = |e : &BPE| match e
+    {
+        BPE::Empty => "{\"err\":\"Empty\",\"args\":[]}".to_string(),
+        BPE::ContainsEmptyLines(v) => format!("{{\"err\":\"ContainsEmptyLines\",\"args\":[{}]}}", v.iter().map(|x| x.to_string()).collect::<Vec<_>>().join(",")),
+        BPE::Contradiction(a, b) => format!("{{\"err\":\"Contradiction\",\"args\":[{},{}]}}", a, b),
+        BPE::WrongIndent(a) => format!("{{\"err\":\"WrongIndent\",\"args\":[{}]}}", a),
+    };
+    for block in text.split("\n---\n")
+    {
+        let mut it = block.split('\n');
+        let kind = it.next().unwrap_or("");
+        let lines : Vec<String> = it.map(|l| l.replace("\\t", "\t").replace("\\e", "")).collect();
+        if kind == "B"
+        {
+            let refs : Vec<&str> = lines.iter().map(|s| s.as_str()).collect();
+            let r = std::panic::catch_unwind(std::panic::AssertUnwindSafe(|| PathBundle::parse_lines(refs).map(|b| b.get_path_strings('/'))));
+            match r
+            {
+                Err(_) => println!("PARSE-RESULT {{\"panic\":true}}"),
+                Ok(Ok(p)) => println!("PARSE-RESULT {{\"ok\":[{}]}}", p.iter().map(q).collect::<Vec<_>>().join(",")),
+                Ok(Err(e)) => println!("PARSE-RESULT {}", berr(&e)),
+            }
+        }
+        else if kind == "P"
+        {
+            let content = lines.join("\n");
+            let r = std::panic::catch_unwind(std::panic::AssertUnwindSafe(|| parse("the.rules".to_string(), content)));
+            match r
+            {
+                Err(_) => println!("PARSE-RESULT {{\"panic\":true}}"),
+                Ok(Ok(rules)) => println!("PARSE-RESULT {{\"ok\":[{}]}}", rules.iter().map(|r| format!("{{\"targets\":[{}],\"sources\":[{}],\"command\":[{}]}}",
+                    r.targets.iter().map(q).collect::<Vec<_>>().join(","), r.sources.iter().map(q).collect::<Vec<_>>().join(","), r.command.iter().map(q).collect::<Vec<_>>().join(","))).collect::<Vec<_>>().join(",")),
+                Ok(Err(e)) => match e
+                {
+                    RPE::UnexpectedEmptyLine(f, n) => println!("PARSE-RESULT {{\"err\":\"UnexpectedEmptyLine\",\"file\":{},\"line\":{}}}", q(&f), n),
+                    RPE::UnexpectedExtraColon(f, n) => println!("PARSE-RESULT {{\"err\":\"UnexpectedExtraColon\",\"file\":{},\"line\":{}}}", q(&f), n),
+                    RPE::UnexpectedEndOfFileMidTargets(f, n) => println!("PARSE-RESULT {{\"err\":\"UnexpectedEndOfFileMidTargets\",\"file\":{},\"line\":{}}}", q(&f), n),
+                    RPE::UnexpectedEndOfFileMidSources(f, n) => println!("PARSE-RESULT {{\"err\":\"UnexpectedEndOfFileMidSources\",\"file\":{},\"line\":{}}}", q(&f), n),
+                    RPE::UnexpectedEndOfFileMidCommand(f, n) => println!("PARSE-RESULT {{\"err\":\"UnexpectedEndOfFileMidCommand\",\"file\":{},\"line\":{}}}", q(&f), n),
+                    RPE::BundleError(f, b) => println!("PARSE-RESULT {{\"err\":\"BundleError\",\"file\":{},\"bundle\":{}}}", q(&f), berr(&b)),
+                },
+            }
+        }
+    }
 }
